@@ -5,7 +5,11 @@ EXTENDS Integers, Sequences, TLC, Json
 CONSTANTS MaxConns, MaxMsgs
 VARIABLE s
 \* flavour: the messages are requests, answers, or alternate
-Init == s \in {[conns |-> k, msgs |-> m, pattern |-> p, via |-> v, holdc |-> hc, holdi |-> hi, flavour |-> fl] :
+\* two more kinds of connection for a few shapes: an accepted connection of a server with a WriteTimeout
+\* shorter than the time a handler is held, and a multi-stream association
+Extra == {[conns |-> k, msgs |-> m, pattern |-> p, via |-> v, holdc |-> hc, holdi |-> hi, flavour |-> "req"] :
+            k \in 1..2, m \in 2..3, p \in {"burst", "interleaved"}, v \in {"server+wt", "sctp"}, hc \in 0..1, hi \in 0..2}
+Init == s \in Extra \cup {[conns |-> k, msgs |-> m, pattern |-> p, via |-> v, holdc |-> hc, holdi |-> hi, flavour |-> fl] :
                  k \in 1..MaxConns, m \in 2..MaxMsgs, p \in {"burst", "bytes", "interleaved"}, v \in {"server", "dial", "tcp"},
                  hc \in 0..MaxConns, hi \in 0..MaxMsgs, fl \in {"req", "ans", "mixed"}}
 Next == UNCHANGED s
